@@ -172,7 +172,12 @@ func (w *vfWiring) emit(cls, lid string, srcIP string, srcPort int, raw []byte, 
 			add(e.Uri.Host)
 		}
 	}
-	add(w.g.ip("10.0.0.1")) // the listener's own address is a literal too
+	add(w.g.ip("10.0.0.1"))       // the listener's own address is a literal too
+	for _, st := range w.static { // and so are the configured next hops
+		if h, ok := st["nhost"].(string); ok {
+			add(h)
+		}
+	}
 	tohost := "z.z"
 	for _, h := range in.Hdrs {
 		if h.Cls == "to" && len(h.Ents) > 0 {
